@@ -382,4 +382,497 @@ Section Build.
   Definition result_texts (res : option ty) : list str := match res with Some t => [cty t] | None => [] end.
   Lemma result_free res : Forall2 (free cfg) (bresult res) (result_texts res).
   Proof. destruct res as [t|]; cbn; [constructor; [apply ty_operand | constructor] | constructor]. Qed.
+  (* ---- the induction predicates ---- *)
+  Definition Pe (e : expr) : Prop := chain cfg (bexpr e) (cexpr e).
+  Definition Ps (s : stmt) : Prop := chain cfg (bstmt s) (cstmt s).
+  Definition Pc (c : clause) : Prop := good cfg (bclause c) (cclause c).
+
+  Lemma exprs_good es : Forall Pe es -> Forall2 (good cfg) (map (fun a => CStmt (bexpr a)) es) (map cexpr es).
+  Proof. intros H. apply Forall2_map_both. eapply Forall_impl; [|exact H]. intros a Ha. apply chain_good, Ha. Qed.
+
+  Lemma stmts_good body : Forall Ps body -> Forall2 (good cfg) (map (fun s => CStmt (bstmt s)) body) (map cstmt body).
+  Proof. intros H. apply Forall2_map_both. eapply Forall_impl; [|exact H]. intros a Ha. apply chain_good, Ha. Qed.
+
+  Lemma clauses_good cls : Forall Pc cls -> Forall2 (good cfg) (map bclause cls) (map cclause cls).
+  Proof. intros H. apply Forall2_map_both. exact H. Qed.
+
+  Lemma opt_expr_good o : OptP Pe o -> good cfg (opt_item bexpr o) (opt_text cexpr o).
+  Proof. destruct o as [e|]; cbn [OptP opt_item opt_text]; intros H; [apply chain_good, H | apply good_empty]. Qed.
+
+  Lemma opt_stmt_good o : OptP Ps o -> good cfg (opt_item bstmt o) (opt_text cstmt o).
+  Proof. destruct o as [e|]; cbn [OptP opt_item opt_text]; intros H; [apply chain_good, H | apply good_empty]. Qed.
+
+  Lemma on_last_good ls xs : Forall2 (chain cfg) ls xs ->
+    Forall2 (good cfg) (map CStmt (on_last (fun l => l ++ [op (S "...")]) ls)) (on_last (fun x => x ++ S " ...") xs).
+  Proof.
+    induction 1 as [|l x ls xs H HF IH]; [constructor|].
+    destruct HF as [|l2 x2 ls' xs' H2 HF'].
+    - cbn [on_last map]. constructor; [|constructor]. apply chain_good.
+      eapply chain_eq; [apply (chain_app cfg l x [op (S "...")] [S "..."] H); [|discriminate]|reflexivity].
+      constructor; [apply free_op; reflexivity | constructor].
+    - change (Forall2 (good cfg)
+               (CStmt l :: map CStmt (on_last (fun l => l ++ [op (S "...")]) (l2 :: ls')))
+               (x :: on_last (fun x => x ++ S " ...") (x2 :: xs'))).
+      constructor; [apply chain_good, H | exact IH].
+  Qed.
+
+  Lemma args_good ddd args : Forall Pe args ->
+    Forall2 (good cfg) (call_args ddd (map bexpr args))
+            (if ddd then on_last (fun x => x ++ S " ...") (map cexpr args) else map cexpr args).
+  Proof.
+    intros H. unfold call_args. destruct ddd.
+    - apply on_last_good. apply Forall2_map_both. exact H.
+    - rewrite map_map. apply exprs_good, H.
+  Qed.
+
+  Lemma call_chain f args ddd : Pe f -> Forall Pe args ->
+    chain cfg (bexpr f ++ [gCall 0 (call_args ddd (map bexpr args))])
+          (cexpr f ++ S " (" ++ arg_list ddd (map cexpr args) ++ S ")").
+  Proof.
+    intros Hf Ha. eapply chain_eq; [eapply (chain_app cfg _ _ _ [_] Hf); [|discriminate]|].
+    - constructor; [apply free_call, (args_good ddd args Ha) | constructor].
+    - reflexivity.
+  Qed.
+
+  (* ---- expressions ---- *)
+  Lemma one_free c x : free cfg c x -> chain cfg [c] x.
+  Proof. intros H. apply (chain_free cfg [c] [x]); [constructor; [exact H | constructor] | discriminate]. Qed.
+
+  Lemma pe_id n : Pe (EId n). Proof. apply one_free, free_id. Qed.
+  Lemma pe_int z : Pe (EInt z). Proof. apply one_free, free_int. Qed.
+  Lemma pe_str s : Pe (EStr s). Proof. apply one_free, free_str. Qed.
+  Lemma pe_bool b : Pe (EBool b).
+  Proof. unfold Pe. destruct b; cbn [bexpr cexpr]; [rewrite (kw_True Hok) | rewrite (kw_False Hok)]; apply one_free, free_tkid. Qed.
+  Lemma pe_nil : Pe ENil.
+  Proof. unfold Pe. cbn [bexpr cexpr]. rewrite (kw_Nil Hok). apply one_free, free_tkid. Qed.
+
+  Lemma pe_un o x : Pe x -> Pe (EUn o x).
+  Proof.
+    intros Hx. unfold Pe. cbn [bexpr cexpr].
+    eapply chain_eq; [apply (chain_free cfg _ [unop_text o; cexpr x]); [|discriminate]|reflexivity].
+    constructor; [apply free_op, unop_not_default|]. constructor; [apply chain_operand, Hx | constructor].
+  Qed.
+
+  Lemma pe_bin x o y : Pe x -> Pe y -> Pe (EBin x o y).
+  Proof.
+    intros Hx Hy. unfold Pe. cbn [bexpr cexpr].
+    eapply chain_eq; [apply (chain_app cfg _ _ _ [binop_text o; cexpr y] Hx); [|discriminate]|reflexivity].
+    constructor; [apply free_op, binop_not_default|]. constructor; [apply chain_operand, Hy | constructor].
+  Qed.
+
+  Lemma pe_call f args ddd : Pe f -> Forall Pe args -> Pe (ECall f args ddd).
+  Proof. intros Hf Ha. apply call_chain; assumption. Qed.
+
+  Lemma pe_index x i : Pe x -> Pe i -> Pe (EIndex x i).
+  Proof.
+    intros Hx Hi. unfold Pe. cbn [bexpr cexpr].
+    eapply chain_eq; [eapply (chain_app cfg _ _ _ [_] Hx); [|discriminate]|].
+    - constructor; [apply (free_index [_] [cexpr i]) | constructor].
+      constructor; [apply chain_good, Hi | constructor].
+    - reflexivity.
+  Qed.
+
+  Lemma pe_slice x lo hi : Pe x -> OptP Pe lo -> OptP Pe hi -> Pe (ESlice x lo hi).
+  Proof.
+    intros Hx Hlo Hhi. unfold Pe. cbn [bexpr cexpr].
+    eapply chain_eq; [eapply (chain_app cfg _ _ _ [_] Hx); [|discriminate]|].
+    - constructor; [apply (free_index [_; _] [opt_text cexpr lo; opt_text cexpr hi]) | constructor].
+      constructor; [apply opt_expr_good, Hlo|]. constructor; [apply opt_expr_good, Hhi | constructor].
+    - cbn [join]. rewrite <- !app_assoc. reflexivity.
+  Qed.
+
+  Lemma pe_slice3 x lo hi mx : Pe x -> OptP Pe lo -> OptP Pe hi -> OptP Pe mx -> Pe (ESlice3 x lo hi mx).
+  Proof.
+    intros Hx Hlo Hhi Hmx. unfold Pe. cbn [bexpr cexpr].
+    eapply chain_eq; [eapply (chain_app cfg _ _ _ [_] Hx); [|discriminate]|].
+    - constructor; [apply (free_index [_; _; _] [opt_text cexpr lo; opt_text cexpr hi; opt_text cexpr mx]) | constructor].
+      constructor; [apply opt_expr_good, Hlo|]. constructor; [apply opt_expr_good, Hhi|].
+      constructor; [apply opt_expr_good, Hmx | constructor].
+    - cbn [join]. rewrite <- !app_assoc. reflexivity.
+  Qed.
+
+  Lemma pe_sel x sel : Pe x -> Pe (ESel x sel).
+  Proof.
+    intros Hx. unfold Pe. cbn [bexpr cexpr].
+    eapply chain_eq; [apply (chain_app cfg _ _ _ [S "."; sel] Hx); [|discriminate]|reflexivity].
+    constructor; [apply free_op; reflexivity|]. constructor; [apply free_id | constructor].
+  Qed.
+
+  Lemma pe_paren x : Pe x -> Pe (EParen x).
+  Proof.
+    intros Hx. unfold Pe. cbn [bexpr cexpr]. apply one_free.
+    eapply free_eq; [apply (free_parens [_] [cexpr x])|reflexivity].
+    constructor; [apply chain_good, Hx | constructor].
+  Qed.
+
+  Lemma pe_comp t elts : Forall Pe elts -> Pe (EComp t elts).
+  Proof.
+    intros He. unfold Pe. cbn [bexpr cexpr].
+    eapply chain_eq; [eapply (chain_app cfg _ _ _ [_] (ty_chain t)); [|discriminate]|].
+    - constructor; [apply free_values, (exprs_good elts He) | constructor].
+    - reflexivity.
+  Qed.
+  Ltac txt := cbn [join app opt_text cresult]; rewrite ?app_nil_r, <- ?app_assoc; reflexivity.
+
+  Lemma free_kw_text m s : kw m = CTok (TkText s) -> str_eqb s s_default = false -> free cfg (kw m) s.
+  Proof. intros -> H. apply free_tktext, H. Qed.
+
+  Lemma pe_func ps res body : Forall Ps body -> Pe (EFunc ps res body).
+  Proof.
+    intros Hb. unfold Pe. cbn [bexpr cexpr]. pose proof (stmts_good body Hb) as HB.
+    destruct res as [t|]; cbn [bresult opt_items app].
+    - eapply chain_eq;
+        [eapply (chain_block [kw (S "Func"); bparams ps; CStmt (bty t)] [S "func"; cparams ps; cty t] _ _ [] []);
+         [|exact HB|constructor|]|].
+      + constructor; [apply (free_kw_text _ _ (kw_Func Hok)); reflexivity|].
+        constructor; [apply params_free|]. constructor; [apply ty_operand | constructor].
+      + intros suf. unfold bparams. rewrite (kw_Func Hok), (gParams_eq Hok), (gBlock_eq Hok). reflexivity.
+      + txt.
+    - eapply chain_eq;
+        [eapply (chain_block [kw (S "Func"); bparams ps] [S "func"; cparams ps] _ _ [] []);
+         [|exact HB|constructor|]|].
+      + constructor; [apply (free_kw_text _ _ (kw_Func Hok)); reflexivity|].
+        constructor; [apply params_free | constructor].
+      + intros suf. unfold bparams. rewrite (kw_Func Hok), (gParams_eq Hok), (gBlock_eq Hok). reflexivity.
+      + txt.
+  Qed.
+
+  (* ---- statements ---- *)
+  Lemma ps_expr e : Pe e -> Ps (SExpr e).
+  Proof. intros H. exact H. Qed.
+
+  Lemma ps_assign l ls o r rs : Pe l -> Forall Pe ls -> Pe r -> Forall Pe rs -> Ps (SAssign l ls o r rs).
+  Proof.
+    intros Hl Hls Hr Hrs. unfold Ps. cbn [bstmt cstmt].
+    eapply chain_eq;
+      [apply (chain_free cfg _ [join comma (map cexpr (l :: ls)); asgop_text o; join comma (map cexpr (r :: rs))]);
+       [|discriminate]|reflexivity].
+    constructor; [apply (free_list _ _ _ _ (exprs_good (l :: ls) (Forall_cons l Hl Hls)))|].
+    constructor; [apply free_op, asgop_not_default|].
+    constructor; [apply (free_list _ _ _ _ (exprs_good (r :: rs) (Forall_cons r Hr Hrs))) | constructor].
+  Qed.
+
+  Lemma ps_incdec x inc : Pe x -> Ps (SIncDec x inc).
+  Proof.
+    intros Hx. unfold Ps. cbn [bstmt cstmt].
+    destruct inc;
+      (eapply chain_eq; [eapply (chain_app cfg _ _ _ [_] Hx); [|discriminate]|];
+       [constructor; [apply free_op; reflexivity | constructor] | reflexivity]).
+  Qed.
+
+  Lemma ps_return es : Forall Pe es -> Ps (SReturn es).
+  Proof.
+    intros He. unfold Ps. cbn [bstmt cstmt]. apply one_free.
+    eapply free_eq; [apply free_return, (exprs_good es He) | rewrite app_nil_r; reflexivity].
+  Qed.
+
+  Lemma if_head init cond : OptP Ps init -> Pe cond ->
+    free cfg (gIf 0 (opt_items (fun s => [CStmt (bstmt s)]) init ++ [CStmt (bexpr cond)]))
+         (S "if " ++ opt_text (fun s => cstmt s ++ S ";") init ++ cexpr cond).
+  Proof.
+    intros Hi Hc. destruct init as [s|]; cbn [OptP opt_items opt_text app] in *.
+    - eapply free_eq; [apply (free_if [_; _] [cstmt s; cexpr cond])|txt].
+      constructor; [apply chain_good, Hi|]. constructor; [apply chain_good, Hc | constructor].
+    - eapply free_eq; [apply (free_if [_] [cexpr cond])|txt].
+      constructor; [apply chain_good, Hc | constructor].
+  Qed.
+
+  Lemma ps_if init cond body els :
+    OptP Ps init -> Pe cond -> Forall Ps body -> OptP Ps els -> Ps (SIf init cond body els).
+  Proof.
+    intros Hi Hc Hb He. unfold Ps. cbn [bstmt cstmt]. pose proof (stmts_good body Hb) as HB.
+    pose proof (if_head init cond Hi Hc) as HH.
+    destruct els as [s2|]; cbn [OptP opt_items opt_text app] in *.
+    - eapply chain_eq; [eapply (chain_block [_] [_] _ _ [_; _] [S "else"; cstmt s2]);
+                        [constructor; [exact HH | constructor]|exact HB| |]|].
+      + constructor; [apply (free_kw_text _ _ (kw_Else Hok)); reflexivity|].
+        constructor; [apply chain_operand, He | constructor].
+      + intros suf. rewrite (gIf_eq Hok), (gBlock_eq Hok). reflexivity.
+      + txt.
+    - eapply chain_eq; [eapply (chain_block [_] [_] _ _ [] []);
+                        [constructor; [exact HH | constructor]|exact HB|constructor|]|].
+      + intros suf. rewrite (gIf_eq Hok), (gBlock_eq Hok). reflexivity.
+      + txt.
+  Qed.
+
+  (* a loop: For(head..).Block(body..) *)
+  Lemma for_chain hd hx body : Forall Ps body -> free cfg (gFor 0 hd) hx ->
+    chain cfg [gFor 0 hd; gBlock 1 (map (fun s => CStmt (bstmt s)) body)] (hx ++ sp ++ braces (map cstmt body)).
+  Proof.
+    intros Hb Hh. pose proof (stmts_good body Hb) as HB.
+    eapply chain_eq; [eapply (chain_block [_] [hx] _ _ [] []);
+                      [constructor; [exact Hh | constructor]|exact HB|constructor|]|].
+    - intros suf. rewrite (gFor_eq Hok), (gBlock_eq Hok). reflexivity.
+    - txt.
+  Qed.
+
+  Lemma ps_for init cond post body :
+    OptP Ps init -> OptP Pe cond -> OptP Ps post -> Forall Ps body -> Ps (SFor init cond post body).
+  Proof.
+    intros Hi Hc Hp Hb. unfold Ps. cbn [bstmt cstmt].
+    eapply chain_eq; [eapply (for_chain _ _ body Hb)|].
+    - apply (free_for [_; _; _] [opt_text cstmt init; opt_text cexpr cond; opt_text cstmt post]).
+      constructor; [apply opt_stmt_good, Hi|]. constructor; [apply opt_expr_good, Hc|].
+      constructor; [apply opt_stmt_good, Hp | constructor].
+    - txt.
+  Qed.
+
+  Lemma ps_while cond body : Pe cond -> Forall Ps body -> Ps (SWhile cond body).
+  Proof.
+    intros Hc Hb. unfold Ps. cbn [bstmt cstmt].
+    eapply chain_eq; [eapply (for_chain _ _ body Hb)|].
+    - apply (free_for [_] [cexpr cond]). constructor; [apply chain_good, Hc | constructor].
+    - txt.
+  Qed.
+
+  Lemma ps_loop body : Forall Ps body -> Ps (SLoop body).
+  Proof.
+    intros Hb. unfold Ps. cbn [bstmt cstmt].
+    eapply chain_eq; [eapply (for_chain _ _ body Hb)|].
+    - apply (free_for [] []). constructor.
+    - txt.
+  Qed.
+
+  Lemma ps_range k v def x body : Pe k -> OptP Pe v -> Pe x -> Forall Ps body -> Ps (SRange k v def x body).
+  Proof.
+    intros Hk Hv Hx Hb. unfold Ps. cbn [bstmt cstmt].
+    assert (HL : free cfg (gList 0 (CStmt (bexpr k) :: opt_items (fun e => [CStmt (bexpr e)]) v))
+                      (cexpr k ++ opt_text (fun e => comma ++ cexpr e) v)).
+    { destruct v as [e|]; cbn [OptP opt_items opt_text] in *.
+      - eapply free_eq; [apply (free_list _ [_] (cexpr k) [cexpr e])|reflexivity].
+        constructor; [apply chain_good, Hk|]. constructor; [apply chain_good, Hv | constructor].
+      - eapply free_eq; [apply (free_list _ [] (cexpr k) [])|txt].
+        constructor; [apply chain_good, Hk | constructor]. }
+    eapply chain_eq; [eapply (for_chain _ _ body Hb)|].
+    - eapply (free_for [_] [_]). constructor; [|constructor]. apply chain_good.
+      eapply (chain_free cfg _ [_; (if def then S ":=" else S "="); S "range"; cexpr x]); [|discriminate].
+      constructor; [exact HL|]. constructor; [destruct def; apply free_op; reflexivity|].
+      constructor; [apply (free_kw_text _ _ (kw_Range Hok)); reflexivity|].
+      constructor; [apply chain_operand, Hx | constructor].
+    - destruct def; txt.
+  Qed.
+
+  Lemma ps_switch init tag cls : OptP Ps init -> OptP Pe tag -> Forall Pc cls -> Ps (SSwitch init tag cls).
+  Proof.
+    intros Hi Ht Hc. unfold Ps. cbn [bstmt cstmt]. pose proof (clauses_good cls Hc) as HB.
+    assert (HH : forall hd hxs, Forall2 (good cfg) hd hxs ->
+              chain cfg [gSwitch 0 hd; gBlock 1 (map bclause cls)]
+                    ((S "switch " ++ join (S ";") hxs) ++ sp ++ braces (map cclause cls))).
+    { intros hd hxs Hhd.
+      eapply chain_eq; [eapply (chain_block [_] [_] _ _ [] []);
+                        [constructor; [apply (free_switch hd hxs Hhd) | constructor]|exact HB|constructor|]|].
+      - intros suf. rewrite (gSwitch_eq Hok), (gBlock_eq Hok). reflexivity.
+      - txt. }
+    destruct init as [s|], tag as [e|]; cbn [OptP] in *.
+    - eapply chain_eq; [apply (HH [_; _] [cstmt s; cexpr e])|txt].
+      constructor; [apply chain_good, Hi|]. constructor; [apply chain_good, Ht | constructor].
+    - eapply chain_eq; [apply (HH [_; _] [cstmt s; []])|txt].
+      constructor; [apply chain_good, Hi|]. constructor; [apply good_empty | constructor].
+    - eapply chain_eq; [apply (HH [_] [cexpr e])|txt].
+      constructor; [apply chain_good, Ht | constructor].
+    - eapply chain_eq; [apply (HH [] [])|txt]. constructor.
+  Qed.
+
+  Lemma ps_block body : Forall Ps body -> Ps (SBlock body).
+  Proof.
+    intros Hb. unfold Ps. cbn [bstmt cstmt]. pose proof (stmts_good body Hb) as HB.
+    eapply chain_eq; [eapply (chain_block [] [] _ _ [] []); [constructor|exact HB|constructor|]|].
+    - intros suf. rewrite (gBlock_eq Hok). reflexivity.
+    - txt.
+  Qed.
+
+  Lemma branch_chain m s l : kw m = CTok (TkText s) -> str_eqb s s_default = false ->
+    chain cfg (kw m :: opt_items (fun x => [id x]) l) (s ++ opt_text (fun x => sp ++ x) l).
+  Proof.
+    intros Hm Hs. destruct l as [x|]; cbn [opt_items opt_text].
+    - eapply chain_eq; [apply (chain_free cfg _ [s; x]); [|discriminate]|reflexivity].
+      constructor; [apply (free_kw_text _ _ Hm Hs)|]. constructor; [apply free_id | constructor].
+    - rewrite app_nil_r. apply one_free, (free_kw_text _ _ Hm Hs).
+  Qed.
+
+  Lemma ps_break l : Ps (SBreak l).
+  Proof. apply (branch_chain _ _ l (kw_Break Hok)). reflexivity. Qed.
+  Lemma ps_continue l : Ps (SContinue l).
+  Proof. apply (branch_chain _ _ l (kw_Continue Hok)). reflexivity. Qed.
+
+  Lemma ps_go f args ddd : Pe f -> Forall Pe args -> Ps (SGo f args ddd).
+  Proof.
+    intros Hf Ha. unfold Ps. cbn [bstmt cstmt].
+    eapply chain_eq; [eapply (chain_free cfg _ [S "go"; _]); [|discriminate]|].
+    - constructor; [apply (free_kw_text _ _ (kw_Go Hok)); reflexivity|].
+      constructor; [apply chain_operand, (call_chain f args ddd Hf Ha) | constructor].
+    - reflexivity.
+  Qed.
+
+  Lemma ps_defer f args ddd : Pe f -> Forall Pe args -> Ps (SDefer f args ddd).
+  Proof.
+    intros Hf Ha. unfold Ps. cbn [bstmt cstmt].
+    eapply chain_eq; [eapply (chain_free cfg _ [S "defer"; _]); [|discriminate]|].
+    - constructor; [apply (free_kw_text _ _ (kw_Defer Hok)); reflexivity|].
+      constructor; [apply chain_operand, (call_chain f args ddd Hf Ha) | constructor].
+    - reflexivity.
+  Qed.
+
+  (* the optional type and the optional initialiser of a var statement / a value spec *)
+  Definition tyval_texts (t : option ty) (e : option expr) : list str :=
+    (match t with Some t => [cty t] | None => [] end) ++
+    (match e with Some e => [S "="; cexpr e] | None => [] end).
+
+  Lemma tyval_free t e : OptP Pe e ->
+    Forall2 (free cfg) (opt_items (fun t => [CStmt (bty t)]) t ++ opt_items (fun e => [op (S "="); CStmt (bexpr e)]) e)
+            (tyval_texts t e).
+  Proof.
+    intros He. unfold tyval_texts. apply Forall2_app.
+    - destruct t as [t|]; cbn [opt_items]; [constructor; [apply ty_operand | constructor] | constructor].
+    - destruct e as [e|]; cbn [opt_items OptP] in *; [|constructor].
+      constructor; [apply free_op; reflexivity|]. constructor; [apply chain_operand, He | constructor].
+  Qed.
+
+  Lemma ps_var x t e : OptP Pe e -> Ps (SVar x t e).
+  Proof.
+    intros He. unfold Ps. cbn [bstmt cstmt].
+    eapply chain_eq; [apply (chain_free cfg _ ([S "var"; x] ++ tyval_texts t e)); [|discriminate]|].
+    - apply Forall2_app; [|apply tyval_free, He].
+      constructor; [apply (free_kw_text _ _ (kw_Var Hok)); reflexivity|]. constructor; [apply free_id | constructor].
+    - destruct t, e; unfold tyval_texts; txt.
+  Qed.
+
+  (* ---- clauses: the Block after Case / Default has no braces ---- *)
+  Lemma pc_case e es body : Pe e -> Forall Pe es -> Forall Ps body -> Pc (CCase e es body).
+  Proof.
+    intros He Hes Hb. unfold Pc. cbn [bclause cclause]. pose proof (stmts_good body Hb) as HB.
+    assert (H : good cfg (CStmt [gCase 0 (map (fun a => CStmt (bexpr a)) (e :: es));
+                                 gBlock 1 (map (fun s => CStmt (bstmt s)) body)])
+                     ((S "case " ++ join comma (map cexpr (e :: es)) ++ S ":") ++ sp ++ lines (map cstmt body))).
+    { apply good_case_block; [apply free_case, (exprs_good (e :: es) (Forall_cons e He Hes)) | exact HB |].
+      intros suf. rewrite (gCase_eq Hok), (gBlock_eq Hok). reflexivity. }
+    destruct H as [H1 H2]. split; [exact H1|]. eapply free_eq; [exact H2|].
+    rewrite <- !app_assoc. reflexivity.
+  Qed.
+
+  Lemma pc_default body : Forall Ps body -> Pc (CDefault body).
+  Proof.
+    intros Hb. unfold Pc. cbn [bclause cclause]. pose proof (stmts_good body Hb) as HB.
+    assert (H : good cfg (CStmt [kw (S "Default"); gBlock 1 (map (fun s => CStmt (bstmt s)) body)])
+                     (S "default:" ++ sp ++ lines (map cstmt body))).
+    { apply good_case_block; [|exact HB|].
+      - rewrite (kw_Default Hok). split; intros; reflexivity.
+      - intros suf. rewrite (kw_Default Hok), (gBlock_eq Hok). reflexivity. }
+    exact H.
+  Qed.
+  (* ---- all trees ---- *)
+  Theorem all_chains : (forall e, Pe e) /\ (forall s, Ps s) /\ (forall c, Pc c).
+  Proof.
+    exact (mini_ind Pe Ps Pc pe_id pe_int pe_str pe_bool pe_nil pe_un pe_bin pe_call pe_index pe_slice
+             pe_slice3 pe_sel pe_paren pe_comp pe_func ps_expr ps_assign ps_incdec ps_return ps_if ps_for
+             ps_while ps_loop ps_range ps_switch ps_block ps_break ps_continue ps_go ps_defer ps_var
+             pc_case pc_default).
+  Qed.
+
+  Lemma expr_chain e : chain cfg (bexpr e) (cexpr e).
+  Proof. exact (proj1 all_chains e). Qed.
+  Lemma stmt_chain s : chain cfg (bstmt s) (cstmt s).
+  Proof. exact (proj1 (proj2 all_chains) s). Qed.
+
+  Lemma all_stmts body : Forall Ps body.
+  Proof. apply Forall_forall. intros s _. apply stmt_chain. Qed.
+
+  (* ---- declarations ---- *)
+  Lemma spec_good sp0 : good cfg (bspec sp0) (cspec sp0).
+  Proof.
+    destruct sp0 as [[n t] e]. unfold bspec, cspec. apply chain_good.
+    eapply chain_eq; [apply (chain_free cfg _ (n :: tyval_texts t e)); [|discriminate]|].
+    - constructor; [apply free_id|]. apply tyval_free. destruct e as [e|]; [apply expr_chain | exact I].
+    - destruct t, e; unfold tyval_texts; txt.
+  Qed.
+
+  Lemma defs_chain m s specs : kw m = CTok (TkText s) -> str_eqb s s_default = false ->
+    chain cfg [kw m; gDefs 0 (map bspec specs)] (s ++ sp ++ parens_lines (map cspec specs)).
+  Proof.
+    intros Hm Hs. eapply chain_eq; [apply (chain_free cfg _ [s; parens_lines (map cspec specs)]); [|discriminate]|reflexivity].
+    constructor; [apply (free_kw_text _ _ Hm Hs)|]. constructor; [|constructor].
+    apply free_defs. apply Forall2_map_both. apply Forall_forall. intros x _. apply spec_good.
+  Qed.
+
+  Lemma decl_chain d : chain cfg (bdecl d) (cdecl d).
+  Proof.
+    destruct d as [name ps res body | specs | specs | name t]; cbn [bdecl cdecl].
+    - pose proof (stmts_good body (all_stmts body)) as HB.
+      destruct res as [t|]; cbn [bresult opt_items app].
+      + eapply chain_eq;
+          [eapply (chain_block [kw (S "Func"); id name; bparams ps; CStmt (bty t)] [S "func"; name; cparams ps; cty t] _ _ [] []);
+           [|exact HB|constructor|]|].
+        * constructor; [apply (free_kw_text _ _ (kw_Func Hok)); reflexivity|]. constructor; [apply free_id|].
+          constructor; [apply params_free|]. constructor; [apply ty_operand | constructor].
+        * intros suf. unfold bparams. rewrite (kw_Func Hok), (gParams_eq Hok), (gBlock_eq Hok). reflexivity.
+        * txt.
+      + eapply chain_eq;
+          [eapply (chain_block [kw (S "Func"); id name; bparams ps] [S "func"; name; cparams ps] _ _ [] []);
+           [|exact HB|constructor|]|].
+        * constructor; [apply (free_kw_text _ _ (kw_Func Hok)); reflexivity|]. constructor; [apply free_id|].
+          constructor; [apply params_free | constructor].
+        * intros suf. unfold bparams. rewrite (kw_Func Hok), (gParams_eq Hok), (gBlock_eq Hok). reflexivity.
+        * txt.
+    - eapply chain_eq; [apply (defs_chain _ _ specs (kw_Var Hok)); reflexivity | reflexivity].
+    - eapply chain_eq; [apply (defs_chain _ _ specs (kw_Const Hok)); reflexivity | reflexivity].
+    - eapply chain_eq; [apply (chain_free cfg _ [S "type"; name; cty t]); [|discriminate]|reflexivity].
+      constructor; [apply (free_kw_text _ _ (kw_Type Hok)); reflexivity|]. constructor; [apply free_id|].
+      constructor; [apply ty_operand | constructor].
+  Qed.
+
+  (* ---- THE THEOREM, per syntactic class: from any table, in any context, the built tree
+     renders to the canonical text and leaves the table as it was ---- *)
+  Lemma render_of_chain l x : chain cfg l x -> forall ctx t, render cfg ctx t (CStmt l) = Ok (t, x).
+  Proof. intros H. exact (proj2 (chain_operand cfg l x H)). Qed.
+
+  Theorem render_build_type t0 : forall ctx t, render cfg ctx t (build_type t0) = Ok (t, cty t0).
+  Proof. exact (render_of_chain _ _ (ty_chain t0)). Qed.
+  Theorem render_build_expr e : forall ctx t, render cfg ctx t (build_expr e) = Ok (t, cexpr e).
+  Proof. exact (render_of_chain _ _ (expr_chain e)). Qed.
+  Theorem render_build_stmt s : forall ctx t, render cfg ctx t (build_stmt s) = Ok (t, cstmt s).
+  Proof. exact (render_of_chain _ _ (stmt_chain s)). Qed.
+  Theorem render_build_decl d : forall ctx t, render cfg ctx t (build_decl d) = Ok (t, cdecl d).
+  Proof. exact (render_of_chain _ _ (decl_chain d)). Qed.
+
+  Lemma decls_good ds : Forall2 (good cfg) (map build_decl ds) (map cdecl ds).
+  Proof. apply Forall2_map_both. apply Forall_forall. intros d _. apply chain_good, decl_chain. Qed.
+
+  (* the case-block rule, as it is used above: the same Block, with the same items, is written
+     with braces in a statement where it does not follow Case / Default, and without them
+     where it does *)
+  Theorem block_braces_rule body : forall t,
+    render cfg false t (CStmt [gBlock 1 (map (fun s => CStmt (bstmt s)) body)]) = Ok (t, braces (map cstmt body)) /\
+    render cfg false t (CStmt [kw (S "Default"); gBlock 1 (map (fun s => CStmt (bstmt s)) body)]) =
+      Ok (t, S "default: " ++ lines (map cstmt body)).
+  Proof.
+    intros t. split.
+    - exact (render_build_stmt (SBlock body) false t).
+    - pose proof (pc_default body (all_stmts body)) as [_ [_ H]]. exact (H false t).
+  Qed.
 End Build.
+
+(* ------------------------------------------------------------------ the file *)
+Lemma fold_add_items l : forall f,
+  fold_left add_item l f =
+  mkfile (f_name f) (f_path f) (f_prefix f) (f_hints f) (f_imports f) (f_comments f) (f_headers f)
+         (f_cgo f) (f_noformat f) (f_canonical f) (f_items f ++ l).
+Proof.
+  induction l as [|c l IH]; intros f; cbn [fold_left].
+  - rewrite app_nil_r. destruct f; reflexivity.
+  - rewrite IH. cbn. rewrite <- app_assoc. reflexivity.
+Qed.
+
+Theorem file_raw_build : tables_ok = true -> forall name ds,
+  file_raw (build_file name ds) = Ok ([], cfile name ds).
+Proof.
+  intros Hok name ds. unfold build_file. rewrite fold_add_items. cbn [new_file f_name f_path f_prefix f_hints f_imports
+    f_comments f_headers f_cgo f_noformat f_canonical f_items app].
+  unfold file_raw, file_group. cbn [f_items f_imports f_cgo file_cfg f_path f_prefix f_hints].
+  rewrite (render_group_ok (mkcfg [] [] []) 0 [] [] [] [] true _ _ (decls_good _ Hok ds)); [|reflexivity].
+  cbn [bind fst snd]. rewrite group_text_multi_nosep, <- lines_eq. unfold closer.
+  change (str_eqb [] s_block && false) with false. cbv iota. cbn [nonempty]. rewrite andb_false_r.
+  unfold file_head, cfile. cbn. rewrite ?app_nil_r, <- ?app_assoc. reflexivity.
+Qed.
+
+Lemma tables_ok_holds : tables_ok = true.
+Proof. vm_compute. reflexivity. Qed.
